@@ -9,103 +9,108 @@ import PyElf.Spec.Primitives
 import PyElf.Model.Utils
 import PyElf.Proofs.Primitives
 namespace PyElf.Props.C16
-open PyElf PyElf.Spec PyElf.Model
+open PyElf PyElf.Spec PyElf.Model PyElf.Proofs
 
 /-! ### ULEB128 -/
 
 /-- every complete LEB128 digit string (minimal or not, any length) decodes to the
     standard's value and consumes exactly its bytes -/
 theorem uleb_valid (pre bs rest : Bytes) (h : ValidLEB bs = true) :
-    parseUleb (pre ++ bs ++ rest) pre.length = .ok (ulebVal bs, pre.length + bs.length) := by
-  sorry
+    parseUleb (pre ++ bs ++ rest) pre.length = .ok (ulebVal bs, pre.length + bs.length) :=
+  parseUleb_valid (drop_pre pre bs rest) h
 
-theorem uleb_enc_valid (n v : Nat) (hn : 1 ≤ n) : ValidLEB (encUlebN n v) = true := by
-  sorry
+theorem uleb_enc_valid (n v : Nat) (hn : 1 ≤ n) : ValidLEB (encUlebN n v) = true :=
+  encUlebN_valid n v hn
 
 theorem uleb_enc_val (n v : Nat) (hn : 1 ≤ n) (hv : v < 2 ^ (7 * n)) : ulebVal (encUlebN n v) = v := by
-  sorry
+  -- `hn` is not needed: for `n = 0` the hypothesis `hv` forces `v = 0 = ulebVal []`
+  have _ := hn
+  exact ulebVal_enc_of_lt hv
 
-theorem uleb_enc_len (n v : Nat) : (encUlebN n v).length = n := by
-  sorry
+theorem uleb_enc_len (n v : Nat) : (encUlebN n v).length = n :=
+  encUlebN_length n v
 
 /-- round trip for every value and every (possibly padded) encoding length -/
 theorem uleb_roundtrip (pre rest : Bytes) (n v : Nat) (hn : 1 ≤ n) (hv : v < 2 ^ (7 * n)) :
     parseUleb (pre ++ encUlebN n v ++ rest) pre.length = .ok (v, pre.length + n) := by
-  sorry
+  have := parseUleb_valid (drop_pre pre (encUlebN n v) rest) (encUlebN_valid n v hn)
+  rwa [ulebVal_enc_of_lt hv, encUlebN_length] at this
 
 /-- input that ends inside a LEB128 number is the library's parse error -/
 theorem uleb_truncated (pre bs : Bytes) (h : ∀ b ∈ bs, 128 ≤ b.toNat) :
-    parseUleb (pre ++ bs) pre.length = .error .elfParseError := by
-  sorry
+    parseUleb (pre ++ bs) pre.length = .error .elfParseError :=
+  parseUleb_trunc (drop_pre' pre bs) h
 
 /-! ### SLEB128 -/
 
 theorem sleb_valid (pre bs rest : Bytes) (h : ValidLEB bs = true) :
-    parseSleb (pre ++ bs ++ rest) pre.length = .ok (slebVal bs, pre.length + bs.length) := by
-  sorry
+    parseSleb (pre ++ bs ++ rest) pre.length = .ok (slebVal bs, pre.length + bs.length) :=
+  parseSleb_valid (drop_pre pre bs rest) h
 
 theorem sleb_enc_val (n : Nat) (v : Int) (hn : 1 ≤ n)
     (hlo : -((2 ^ (7 * n - 1) : Nat) : Int) ≤ v) (hhi : v < ((2 ^ (7 * n - 1) : Nat) : Int)) :
-    slebVal (encSlebN n v) = v := by
-  sorry
+    slebVal (encSlebN n v) = v :=
+  slebVal_enc n v hn hlo hhi
 
 theorem sleb_roundtrip (pre rest : Bytes) (n : Nat) (v : Int) (hn : 1 ≤ n)
     (hlo : -((2 ^ (7 * n - 1) : Nat) : Int) ≤ v) (hhi : v < ((2 ^ (7 * n - 1) : Nat) : Int)) :
     parseSleb (pre ++ encSlebN n v ++ rest) pre.length = .ok (v, pre.length + n) := by
-  sorry
+  have := parseSleb_valid (drop_pre pre (encSlebN n v) rest) (encSlebN_valid n v hn)
+  rwa [slebVal_enc n v hn hlo hhi, encSlebN_length] at this
 
 theorem sleb_truncated (pre bs : Bytes) (h : ∀ b ∈ bs, 128 ≤ b.toNat) :
-    parseSleb (pre ++ bs) pre.length = .error .elfParseError := by
-  sorry
+    parseSleb (pre ++ bs) pre.length = .error .elfParseError :=
+  parseSleb_trunc (drop_pre' pre bs) h
 
 /-! ### fixed-width integers, both byte orders and signednesses, any width -/
 
 theorem uint_roundtrip (env : Env) (le : Bool) (n v : Nat) (pre rest : Bytes) (ctx : Fields) :
     Con.parse env (pre ++ encNat le n v ++ rest) (.uint n le) ctx pre.length
       = .ok (.int ((v % 256 ^ n : Nat) : Int), pre.length + n, ctx) := by
-  sorry
+  rw [parse_uint_ok (drop_pre pre _ rest) (encNat_length le n v), decNat_encNat]
 
 theorem sint_roundtrip (env : Env) (le : Bool) (n : Nat) (v : Int) (pre rest : Bytes) (ctx : Fields)
     (hn : 1 ≤ n) (hlo : -((2 ^ (8 * n - 1) : Nat) : Int) ≤ v) (hhi : v < ((2 ^ (8 * n - 1) : Nat) : Int)) :
     Con.parse env (pre ++ encNat le n (ofSigned (8 * n) v) ++ rest) (.sint n le) ctx pre.length
       = .ok (.int v, pre.length + n, ctx) := by
-  sorry
+  rw [parse_sint_ok (drop_pre pre _ rest) (encNat_length le n _), sint_codec le n v hn hlo hhi]
 
 theorem uint_truncated (env : Env) (le : Bool) (n : Nat) (pre bs : Bytes) (ctx : Fields)
     (h : bs.length < n) :
-    Con.parse env (pre ++ bs) (.uint n le) ctx pre.length = .error .elfParseError := by
-  sorry
+    Con.parse env (pre ++ bs) (.uint n le) ctx pre.length = .error .elfParseError :=
+  parse_uint_short (drop_pre' pre bs) h
 
 theorem sint_truncated (env : Env) (le : Bool) (n : Nat) (pre bs : Bytes) (ctx : Fields)
     (h : bs.length < n) :
-    Con.parse env (pre ++ bs) (.sint n le) ctx pre.length = .error .elfParseError := by
-  sorry
+    Con.parse env (pre ++ bs) (.sint n le) ctx pre.length = .error .elfParseError :=
+  parse_sint_short (drop_pre' pre bs) h
 
 /-- the (h, l) split of UBInt24 / ULInt24 is the 3-byte integer -/
 theorem u24_roundtrip (env : Env) (le : Bool) (v : Nat) (hv : v < 2 ^ 24) (pre rest : Bytes) (ctx : Fields) :
     Con.parse env (pre ++ encNat le 3 v ++ rest) (.u24 le) ctx pre.length
-      = .ok (.int (v : Int), pre.length + 3, ctx) := by
-  sorry
+      = .ok (.int (v : Int), pre.length + 3, ctx) :=
+  parse_u24_ok hv (drop_pre pre _ rest)
 
 theorem u24_truncated (env : Env) (le : Bool) (pre bs : Bytes) (ctx : Fields) (h : bs.length < 3) :
-    Con.parse env (pre ++ bs) (.u24 le) ctx pre.length = .error .elfParseError := by
-  sorry
+    Con.parse env (pre ++ bs) (.u24 le) ctx pre.length = .error .elfParseError :=
+  parse_u24_short (drop_pre' pre bs) h
 
 /-! ### NUL-terminated strings -/
 
 theorem cstring_roundtrip (pre s rest : Bytes) (hs : ∀ b ∈ s, b ≠ 0) :
-    parseCString (pre ++ s ++ [0] ++ rest) pre.length = .ok (s, pre.length + s.length + 1) := by
-  sorry
+    parseCString (pre ++ s ++ [0] ++ rest) pre.length = .ok (s, pre.length + s.length + 1) :=
+  parseCString_ok hs (drop_pre3' pre s [0] rest)
 
 theorem cstring_unterminated (pre s : Bytes) (hs : ∀ b ∈ s, b ≠ 0) :
-    parseCString (pre ++ s) pre.length = .error .elfParseError := by
-  sorry
+    parseCString (pre ++ s) pre.length = .error .elfParseError :=
+  parseCString_unterminated hs (drop_pre' pre s)
 
 /-- the chunked reader returns the bytes before the first NUL (or None) whatever the
     chunk size: 63/64/65-byte strings are instances, not tests -/
 theorem cstring_chunked_eq (data : Bytes) (pos k : Nat) (hk : 1 ≤ k) :
     parseCStringFromStream data pos k = .ok (firstNul (data.drop pos)) := by
-  sorry
+  have := cstringChunkLoop_eq data k hk (data.length - pos + 2) pos [] (by omega)
+  simpa [parseCStringFromStream] using this
 
 /-! ### DWARF initial length -/
 
@@ -113,24 +118,35 @@ theorem initial_length_32 (env : Env) (le : Bool) (len : Nat) (h : len < 0xFFFFF
     (pre rest : Bytes) (ctx : Fields) :
     Con.parse env (pre ++ encInitLen le (.dwarf32 len) ++ rest) (.initialLength le) ctx pre.length
       = .ok (.int len, pre.length + 4, Fields.set ctx "is64" (.bool false)) := by
-  sorry
+  have hd := drop_pre pre (encNat le 4 len) rest
+  have hv : decNat le (encNat le 4 len) = len := decNat_encNat_of_lt le (by omega)
+  have := parse_initlen_32 (env := env) (ctx := ctx) (le := le) hd (encNat_length le 4 len) (by rw [hv]; exact h)
+  rwa [hv] at this
 
 theorem initial_length_64 (env : Env) (le : Bool) (len : Nat) (h : len < 2 ^ 64)
     (pre rest : Bytes) (ctx : Fields) :
     Con.parse env (pre ++ encInitLen le (.dwarf64 len) ++ rest) (.initialLength le) ctx pre.length
       = .ok (.int len, pre.length + 12, Fields.set ctx "is64" (.bool true)) := by
-  sorry
+  have hd : (pre ++ encInitLen le (.dwarf64 len) ++ rest).drop pre.length
+      = encNat le 4 0xffffffff ++ (encNat le 8 len ++ rest) := by
+    simp [encInitLen, List.append_assoc]
+  have hv : decNat le (encNat le 8 len) = len := decNat_encNat_of_lt le (by omega)
+  have := parse_initlen_64 (env := env) (ctx := ctx) (le := le) hd (encNat_length le 4 _)
+    (encNat_length le 8 len) (decNat_encNat_of_lt le (by decide))
+  rwa [hv] at this
 
 /-- the reserved escapes 0xffffff00 … 0xfffffffe are rejected -/
 theorem initial_length_reserved (env : Env) (le : Bool) (w : Nat) (h1 : 0xFFFFFF00 ≤ w) (h2 : w < 0xFFFFFFFF)
     (pre rest : Bytes) (ctx : Fields) :
     Con.parse env (pre ++ encNat le 4 w ++ rest) (.initialLength le) ctx pre.length
       = .error .elfParseError := by
-  sorry
+  have hv : decNat le (encNat le 4 w) = w := decNat_encNat_of_lt le (by omega)
+  exact parse_initlen_reserved (drop_pre pre _ rest) (encNat_length le 4 w)
+    (by rw [hv]; exact h1) (by rw [hv]; omega)
 
 theorem initial_length_truncated (env : Env) (le : Bool) (pre bs : Bytes) (ctx : Fields) (h : bs.length < 4) :
-    Con.parse env (pre ++ bs) (.initialLength le) ctx pre.length = .error .elfParseError := by
-  sorry
+    Con.parse env (pre ++ bs) (.initialLength le) ctx pre.length = .error .elfParseError :=
+  parse_initlen_short (drop_pre' pre bs) h
 
 /-! ### length-prefixed blocks and terminated repeats -/
 
@@ -139,23 +155,23 @@ theorem block_fixed_roundtrip (env : Env) (le : Bool) (n : Nat) (payload pre res
     (hlen : payload.length < 256 ^ n) :
     Con.parse env (pre ++ encNat le n payload.length ++ payload ++ rest)
         (.prefixed (.uint n le) (.uint 1 le)) ctx pre.length
-      = .ok (.list (payload.map fun b => .int b.toNat), pre.length + n + payload.length, ctx) := by
-  sorry
+      = .ok (.list (payload.map fun b => .int b.toNat), pre.length + n + payload.length, ctx) :=
+  parse_block_fixed hlen (drop_pre3 pre _ payload rest)
 
 /-- a block with a ULEB128 length prefix (DW_FORM_block / exprloc), any prefix padding -/
 theorem block_uleb_roundtrip (env : Env) (le : Bool) (k : Nat) (payload pre rest : Bytes) (ctx : Fields)
     (hk : 1 ≤ k) (hlen : payload.length < 2 ^ (7 * k)) :
     Con.parse env (pre ++ encUlebN k payload.length ++ payload ++ rest)
         (.prefixed .uleb (.uint 1 le)) ctx pre.length
-      = .ok (.list (payload.map fun b => .int b.toNat), pre.length + k + payload.length, ctx) := by
-  sorry
+      = .ok (.list (payload.map fun b => .int b.toNat), pre.length + k + payload.length, ctx) :=
+  parse_block_uleb hk hlen (drop_pre3 pre _ payload rest)
 
 /-- a block whose payload is cut short is the parse error -/
 theorem block_truncated (env : Env) (le : Bool) (n len : Nat) (payload pre : Bytes) (ctx : Fields)
     (hlen : len < 256 ^ n) (h : payload.length < len) :
     Con.parse env (pre ++ encNat le n len ++ payload)
-        (.prefixed (.uint n le) (.uint 1 le)) ctx pre.length = .error .elfParseError := by
-  sorry
+        (.prefixed (.uint n le) (.uint 1 le)) ctx pre.length = .error .elfParseError :=
+  parse_block_trunc hlen h (by simp [List.append_assoc])
 
 /-- RepeatUntilExcluding over C strings (the v2–4 include-directory table): the strings
     before the first empty one, consuming through its terminator -/
@@ -163,8 +179,8 @@ theorem repeat_cstrings (env : Env) (ss : List Bytes) (pre rest : Bytes) (ctx : 
     (hs : ∀ s ∈ ss, s ≠ [] ∧ ∀ b ∈ s, b ≠ 0) :
     Con.parse env (pre ++ (ss.flatMap fun s => s ++ [0]) ++ [0] ++ rest)
         (.repeatUntilExcl (.eq .obj (.bytesLit [])) .cstring) ctx pre.length
-      = .ok (.list (ss.map .bytes), pre.length + (ss.flatMap fun s => s ++ [0]).length + 1, ctx) := by
-  sorry
+      = .ok (.list (ss.map .bytes), pre.length + (ss.flatMap fun s => s ++ [0]).length + 1, ctx) :=
+  parse_repeat_cstrings hs (drop_pre3' pre _ [0] rest)
 
 /-! ### non-vacuity: concrete instances of the hypotheses -/
 
